@@ -145,10 +145,19 @@ func NewDecodingReader(r io.Reader) Reader {
 	return d
 }
 
-// maxChecksumMessageSize bounds the encoded size of the gob message that
-// carries a batch's uint32 checksum (length, type id and at most 5 value
-// bytes).
-const maxChecksumMessageSize = 16
+// checksumMessageSize returns the encoded size of the gob message that
+// carries the batch checksum sum: a length byte, the type id, a zero delta
+// and gob's encoding of the unsigned value (one byte below 128, otherwise a
+// byte count followed by the minimal big-endian bytes).
+func checksumMessageSize(sum uint32) int {
+	n := 1
+	if sum >= 128 {
+		for v := sum; v > 0; v >>= 8 {
+			n++
+		}
+	}
+	return 3 + n
+}
 
 // byteCounter counts the bytes written to it.
 type byteCounter int64
@@ -270,7 +279,7 @@ func (d *decodingReader) decodeBatch(f frame.Frame) error {
 	// The checksum message is itself not covered by the checksum. If its
 	// length prefix is damaged, gob can skip over (part of) the batches that
 	// follow as if they were the tail of this message.
-	if d.nread-start > maxChecksumMessageSize {
+	if int(d.nread-start) != checksumMessageSize(decoded) {
 		return errors.E(errors.Integrity, errors.New("malformed checksum message"))
 	}
 	if sum != decoded {
